@@ -54,7 +54,7 @@ theorem runProc_nextId_mono (fuel : Nat) (s : PSim) (h : Nat) : s.nextId ≤ (ru
   | succ n ih =>
     unfold runProc
     cases hp : s.ext.procs.getD h [] with
-    | nil => exact Nat.le_refl _
+    | nil => simp only [finishProc]; split <;> exact Nat.le_refl _
     | cons ins rest =>
       simp only
       cases ins with
@@ -67,9 +67,21 @@ theorem runProc_nextId_mono (fuel : Nat) (s : PSim) (h : Nat) : s.nextId ≤ (ru
         exact Nat.le_trans h1 (ih (setPin (setProc s h rest) k v) h)
       | fork c =>
         let s1 : PSim := { setProc s h rest with ext := { (setProc s h rest).ext with
-          procs := (setProc s h rest).ext.procs ++ [(setProc s h rest).ext.scripts.getD c []] } }
+          procs := (setProc s h rest).ext.procs ++ [(setProc s h rest).ext.scripts.getD c []],
+          forked := (setProc s h rest).ext.forked ++ [(setProc s h rest).ext.procs.length] } }
         have h1 : s.nextId ≤ (runProc n s1 (setProc s h rest).ext.procs.length).nextId := ih s1 _
         exact Nat.le_trans h1 (ih (runProc n s1 (setProc s h rest).ext.procs.length) h)
+      | join k =>
+        show s.nextId ≤ (match (setProc s h rest).ext.forked[k]? with
+          | none => runProc n (setProc s h rest) h
+          | some t =>
+            if (setProc s h rest).ext.finished.contains t then runProc n (setProc s h rest) h
+            else { setProc s h rest with ext := { (setProc s h rest).ext with joiners := (setProc s h rest).ext.joiners ++ [(t, h)] } }).nextId
+        split
+        · exact ih (setProc s h rest) h
+        · split
+          · exact ih (setProc s h rest) h
+          · exact Nat.le_refl _
       | waitFor d => simp [suspend, setProc, Sim.push]
       | waitClk d ph => simp [suspend, setProc]
       | waitClkFree f ph => simp [suspend, setProc, Sim.push]
@@ -147,7 +159,7 @@ theorem resume_leaves_registers (P : Prog) (n : Nat) (s : PSim) (e : Event) (he 
     (processEvent P (scriptSem n) (s.dequeue e) e).regs = s.regs := by
   unfold processEvent
   rw [he]
-  exact (runProc_frame _ _ _).regs
+  exact (resumeTop_frame _ _).regs
 
 /-- every micro tick of a phase is followed by `reevaluate` before the next micro tick or phase: what a process writes in the BEFORE
     phase is latched by the registers before the DURING phase handles the edge -/
